@@ -35,6 +35,8 @@ def scenarios(tier, seed):
     out.append(scenario("DDR3-phases", "DDR3", sets[0], seed + 5, tech=dict(tREFI=1600), phy=dict(cl_cwl=[7, 6])))
     # write data phase 0 on a multi-phase PHY: the write-side command phase wraps around to the last phase
     out.append(scenario("DDR3_200-wrphase0", "DDR3_200", sets[1], seed + 8, tech=dict(tREFI=1600), ctrl=dict(with_auto_precharge=False)))
+    # tCCD of two controller cycles (DDR3 at 1:2) with same-row streams: a column command held back by the tCCD gate must not strobe
+    out.append(scenario("DDR3_half-tccd2", "DDR3_half", sets[2], seed + 11, tech=dict(tREFI=1600), ctrl=dict(with_auto_precharge=True)))
     # more than 10 column bits: column bit 10 must travel on A11 (A10 is the auto-precharge / all-banks flag)
     out.append(scenario("DDR3-cols2048", "DDR3", sets[1], seed + 9, tech=dict(tREFI=1600), ncols=2048, nrows=8192,
                         ctrl=dict(with_auto_precharge=False)))
